@@ -277,6 +277,7 @@ type c40World struct {
 	lastIdx           common.Range[uint64] // IndexedBlocks as last sampled by indexed()
 	lastIdxOK         bool
 	firsts            map[uint64]bool // every non-zero first indexed block sampled in this scenario
+	pending           []*c40Query     // queries issued at non-quiescent moments since the last quiescence (see recheck)
 	noBranchSwitch    bool            // prepare() must not draw a switch back to a remembered branch (see there)
 	everLimited       bool            // some indexer instance of this scenario ran with a history limit
 	revertedSinceIdle bool            // a head switch removed canonical blocks since the indexer was last known idle
@@ -846,9 +847,95 @@ func (w *c40World) knownTailPartial(q *c40Query, got []*types.Log, want []c40Exp
 	return false
 }
 
+// c40ClassTransient: while the indexer (re-)renders the head during a range query the answer is
+// occasionally incomplete without any error — e.g. all logs of one block just below the re-rendered
+// head map are missing — and the identical query asked again right away is correct (unexplained,
+// about once in 20 000+ thorough scenarios). Tolerated (if listed) exactly when: the moment is not
+// quiescent, no error, the answer is the scan of one candidate chain view minus ONE contiguous run
+// of logs (nothing surplus, nothing reordered), and the identical query re-asked immediately equals
+// the scan of the now-canonical chain. Persistent effects are still caught by recheck().
+const c40ClassTransient = "transient-incomplete-answer-during-head-render"
+
+func (w *c40World) knownTransient(q *c40Query, ans c40Answer, cands [][]*c40Blk, moment string) bool {
+	if !vs.Known("TestVerifC40Queries", c40ClassTransient) || w.disabled || w.be.fm == nil || q.byHash ||
+		ans.err != nil || strings.Contains(moment, "quiescent") {
+		return false
+	}
+	oneRun := false
+	for _, chain := range cands {
+		want := q.expect(chain)
+		if len(ans.logs) >= len(want) {
+			continue
+		}
+		i := 0
+		for i < len(ans.logs) && ans.logs[i].BlockHash == want[i].b.hash && ans.logs[i].Index == want[i].l.idx {
+			i++
+		}
+		if c40Diff(ans.logs[i:], want[i+len(want)-len(ans.logs):]) == "" {
+			oneRun = true
+		}
+	}
+	if !oneRun {
+		return false
+	}
+	first, last := q.blkRange(w.canon)
+	if first > last || last > w.head().num {
+		return false
+	}
+	again := w.askValve(q)
+	if again.err != nil || c40Diff(again.logs, q.expect(w.canon)) != "" {
+		return false
+	}
+	// The listed finding shows about once in 20 000+ scenarios; a defect with the same transient
+	// symptom (e.g. a wrong trim of the result list when the view changes during a query) shows
+	// several times per few hundred scenarios. Only the first c40TransientBudget occurrences in
+	// one test process are tolerated; a further one is reported as a violation.
+	// The budget grows with the number of judged queries (2 + one per 2000 queries) so that long
+	// thorough shards, where a handful of genuine occurrences are expected, do not alarm, while a
+	// defect (several occurrences per few hundred queries) still exceeds it quickly.
+	return c40TransientSeen.Add(1) <= c40TransientBudget+c40Judged.Load()/2000
+}
+
+const c40TransientBudget = 2
+
+var c40TransientSeen, c40Judged atomic.Int64
+
+// recheck re-asks, with the indexer idle again, the range queries that were issued at non-quiescent
+// moments since the last quiescence and are still valid for the current head, and requires exact
+// equality with the scan of the current chain. It is never gated by the transient-answer finding,
+// so persistent consequences of whatever happened during the racy phase (a wrong trim that sticks,
+// stale index data, a damaged valid range) still fail the check.
+func (w *c40World) recheck(st *vs.S) {
+	pending := w.pending
+	w.pending = nil
+	if w.disabled || w.be.fm == nil {
+		return
+	}
+	for _, q := range pending {
+		if !q.byHash {
+			first, last := q.blkRange(w.canon)
+			if first > last || last > w.head().num {
+				continue
+			}
+		}
+		ans := w.ask(q)
+		want := w.judge(q, ans, [][]*c40Blk{w.canon}, "recheck-quiescent")
+		if w.excluded { // only the explicitly listed quiescent-capable findings can exclude here
+			w.excluded = false
+			st.Excluded()
+			continue
+		}
+		c := st.Case()
+		c.Class("moment:recheck-quiescent")
+		c.Class("preset:" + w.preset.name)
+		_ = want
+	}
+}
+
 // judge compares an answer against the candidate chain views (one unless the head
 // moved while the query ran).
 func (w *c40World) judge(q *c40Query, ans c40Answer, cands [][]*c40Blk, moment string) []c40Exp {
+	c40Judged.Add(1)
 	if ans.err != nil && !ans.timedOut && w.knownTailRace(ans.err, moment) {
 		w.tracef("query %s at %q: excluded (known finding %s): %v", q, moment, w.exclClass, ans.err)
 		w.excluded = true
@@ -871,10 +958,18 @@ func (w *c40World) judge(q *c40Query, ans c40Answer, cands [][]*c40Blk, moment s
 		}
 		if w.knownTailPartial(q, ans.logs, want) {
 			w.tracef("query %s at %q: excluded (known finding %s): %s", q, moment, c40ClassTailPartial, d)
-			w.excluded = true
+			w.excluded, w.exclClass = true, c40ClassTailPartial
 			return nil
 		}
 		diffs = append(diffs, fmt.Sprintf("vs chain view #%d (head %d/%x): %s", i, len(cands[i])-1, cands[i][len(cands[i])-1].hash[:6], d))
+	}
+	if w.knownTransient(q, ans, cands, moment) {
+		msg := fmt.Sprintf("C40 known finding %s: query %s at %q (preset %s, head %d, last op %s): %s; identical query re-asked at once equals the scan",
+			c40ClassTransient, q, moment, w.preset.name, w.head().num, w.lastOp, strings.Join(diffs, " | "))
+		fmt.Fprintln(os.Stderr, "VERIF-KNOWN-OCCURRENCE "+msg)
+		w.tracef("%s", msg)
+		w.excluded, w.exclClass = true, c40ClassTransient
+		return nil
 	}
 	w.dumpPointers(q, cands[len(cands)-1])
 	if w.release == nil && w.be.fm != nil { // triage aid: is the wrong answer transient?
@@ -1027,6 +1122,9 @@ func (w *c40World) queries(st *vs.S, n int, moment string) {
 	if w.disabled {
 		moment = "index-disabled"
 	}
+	if strings.Contains(moment, "quiescent") {
+		w.recheck(st)
+	}
 	for i := 0; i < n; i++ {
 		var idx *common.Range[uint64]
 		withheld := w.release != nil
@@ -1042,10 +1140,14 @@ func (w *c40World) queries(st *vs.S, n int, moment string) {
 		if withheld && w.release == nil {
 			m += "-then-released"
 		}
+		if !strings.Contains(m, "quiescent") && len(w.pending) < 8 {
+			w.pending = append(w.pending, q)
+		}
 		want := w.judge(q, ans, [][]*c40Blk{w.canon}, m)
 		if w.excluded {
 			w.excluded = false
 			st.Excluded()
+			st.Case().Class("excluded:" + w.exclClass)
 			continue
 		}
 		if !lookBefore {
@@ -1340,10 +1442,14 @@ func (w *c40World) concurrent(st *vs.S, maxGrow int) {
 	case <-time.After(c40QueryBound + time.Minute):
 		w.t.Fatalf("VERIF-INCONCLUSIVE C40: concurrent query %s did not return", q)
 	}
+	if len(w.pending) < 8 {
+		w.pending = append(w.pending, q)
+	}
 	want := w.judge(q, ans, cands, "head-moving")
 	if w.excluded {
 		w.excluded = false
 		st.Excluded()
+		st.Case().Class("excluded:" + w.exclClass)
 		return
 	}
 	var idx *common.Range[uint64]
